@@ -367,6 +367,12 @@ class Interp:
                 cv = self.class_attr(o.cls, name)
                 if cv is not None:
                     if isinstance(cv, FuncV):
+                        if "staticmethod" in cv.info.deco:
+                            return FuncV(cv.info)
+                        if "classmethod" in cv.info.deco:
+                            return FuncV(cv.info, ClassV(o.cls))
+                        if "property" in cv.info.deco or "cached_property" in cv.info.deco:
+                            return self.call_func(cv.info, obj, [], {}, node)
                         return FuncV(cv.info, obj)
                     return cv
                 return Undef(name)
@@ -388,6 +394,8 @@ class Interp:
                     return Op("enum", Const(obj.info.qual), Const(name), mem)
             cv = self.class_attr(obj.info, name)
             if cv is not None:
+                if isinstance(cv, FuncV) and "classmethod" in cv.info.deco:
+                    return FuncV(cv.info, obj)
                 return cv
             return Undef(name)
         if isinstance(obj, Op) and obj.op == "enum":
